@@ -394,8 +394,10 @@ def h_history(S, B):
         for step in range(B["STEPS"]):
             op = S.choice("op%d" % step, B["OPS"])
             a = {"name": None, "prefix": "a", "regex": "a.", "uri": URIS[0], "safe": False, "tags": ()}
-            if op in ("register", "remove_name", "set_metadata", "lookup_meta"):
+            if op in ("register", "remove_name", "set_metadata", "lookup_meta", "lookup"):
                 a["name"] = S.choice("name%d" % step, pool)
+            if op in ("yp_any", "yp_all"):
+                a["tags"] = ("t1",)
             if op == "register":
                 a["uri"] = URIS[1]
                 a["tags"] = S.choice("tags%d" % step, [(), ("t2",)])
